@@ -551,6 +551,32 @@ func (o *oracles) compareRestart(st *manager.VerifState, v *ViewSig, g map[strin
 			}
 		}
 	}
+	// independent of what the service itself showed before the kill: every
+	// connection that a one-shot import of the captures whose import had
+	// completed contains must be visible (the service's own view is the model
+	// above; a service that had already lost an index file would agree with itself)
+	if ref, err := o.reference(before.processed); err == nil && !o.completeOff {
+		have := map[string]int{}
+		for _, sl := range v.Streams {
+			// Tuple is proto|client|server
+			if f := strings.Split(sl.Tuple, "|"); len(f) == 3 {
+				a, b := f[1], f[2]
+				if b < a {
+					a, b = b, a
+				}
+				have[f[0]+"|"+a+"|"+b]++
+			}
+		}
+		for _, rs := range ref {
+			t := rs.ConnKey()
+			if have[t] == 0 {
+				if o.violate("restart-streams", "stream-missing", fmt.Sprintf("%s: connection %s of the completed imports %v is not visible after restart", what, t, before.processed)) {
+					return
+				}
+			}
+		}
+		o.s.res.Count("c12_reference_checks", 1)
+	}
 	// the stream count must cover every visible stream (ids are dense)
 	maxID := int64(-1)
 	for id := range got {
